@@ -20,7 +20,7 @@ pub struct Case {
 
 pub enum Prep {
     Rejected(Stage, String),
-    Panicked(String),
+    Panicked(String, Box<Grammar>),
     Ready(Box<Case>),
 }
 
@@ -62,7 +62,7 @@ pub fn prepare_grammar(g: Grammar, profile: &'static str, k_limit: usize, cfg: &
     let par = g.to_par();
     let r = run::guarded(|| inst::build(&par, k_limit, cfg));
     match r {
-        Err(p) => Prep::Panicked(p),
+        Err(p) => Prep::Panicked(p, Box::new(g)),
         Ok(Err(e)) => Prep::Rejected(e.stage, e.msg),
         Ok(Ok(built)) => {
             let bnf = g.to_bnf();
@@ -146,4 +146,19 @@ pub fn case_json(c: &Case) -> Value {
 /// Leak-free static profile tables
 pub fn static_profiles(v: Vec<Profile>) -> &'static [Profile] {
     Box::leak(v.into_boxed_slice())
+}
+
+/// "file:line" of a recorded panic ("<file>:<line>: <msg>"), path shortened to be stable.
+pub fn panic_location(p: &str) -> String {
+    let loc = p.split(": ").next().unwrap_or("");
+    if let Some(i) = loc.find("/crates/") {
+        return loc[i + 1..].to_string();
+    }
+    if let Some(i) = loc.find("/registry/src/") {
+        let rest = &loc[i + "/registry/src/".len()..];
+        if let Some(j) = rest.find('/') {
+            return rest[j + 1..].to_string();
+        }
+    }
+    loc.to_string()
 }
